@@ -46,6 +46,12 @@ fn check_prim(case: &Styled2, obs: &mut Obs) {
     let sty = case.sty;
     with_styled!(&case.shape, sty.build::<C>(), C, |s| {
         let bb = s.bounding_box();
+        // the styled box through its other public entry points
+        let bb2 = embedded_graphics::primitives::StyledDimensions::styled_bounding_box(&s.primitive, &s.style);
+        let bb3 = embedded_graphics::primitives::Styled::new(s.primitive.clone(), s.style).bounding_box();
+        if bb2 != bb || bb3 != bb {
+            obs.fail("bounding-box-entry-points-agree", format!("Styled::bounding_box {:?}, styled_bounding_box {:?}, Styled::new(..).bounding_box {:?}", rt(&bb), rt(&bb2), rt(&bb3)));
+        }
         let mut a = RecD::<C>::new();
         s.draw(&mut a).unwrap();
         let mut b = RecN::<C>::new();
@@ -217,6 +223,7 @@ fn run_part(run: &mut Run) {
     match run.part.as_str() {
         "shapes" => {
             run.sweep_vec("shapes", "shape catalogue x S(W) at (-2,-3)", || product(&shape_catalogue(t, (-2, -3)), &styles(w)), check_prim);
+            run.sweep_vec("display-scale", "display-scale catalogue (every primitive kind, 200..=320 px plus one 1024 px shape, at three positions far from / across the origin) x 6 styles (widths 0, 1, 3, 20, 64, 300)", || product(&display_scale_catalogue(), &display_scale_styles()), check_prim);
             run.sweep_vec("triangles", "all vertex triples of a 5x5 grid stride 2 (thorough: plus 6x6 stride 1) x S(W)", || product(&triangle_catalogue(t, (-2, -3)), &styles(w)), check_prim);
             run.sweep_vec("polylines", "polylines with 0..=4 (thorough 5) vertices on a 3x3 grid stride 3, translate field zero/non-zero x stroke styles", || {
                 let sh = polyline_catalogue(tier.pick(4, 5), 3, 3, (-3, -2));
